@@ -76,8 +76,8 @@ def run(ctx):
                 "equality/hash matrix over all valid spellings")
     ctx.extra["exhaustive"] = True
     ctx.trusted += [
-        "translator tools/translate_voigt.py (fail-closed ast grammar; constructor bodies accepted only in the "
-        "template forms listed there) - validated by the exhaustive run below",
+        "translator tools/translate_voigt.py (fail-closed symbolic evaluator of a small Python subset, listed in its "
+        "docstring; sort keys are translated, not matched) - validated by the exhaustive run below",
         "CPython hash() of NamedTuples of ints: covered by the exhaustive equality/hash matrix, not by a theorem",
     ]
     # 1. regenerate the model from the current source
@@ -96,7 +96,7 @@ def run(ctx):
     # 2. re-prove the theorems against the regenerated model
     if gen_ok:
         shutil.copy(PROPS / "Prop_C10.v", rd / "Prop_C10.v")
-        ctx.prove(rd / "Prop_C10.v", "Prop_C10.v (12 theorems re-proved against Gen_voigt.v)", "theorem-file",
+        ctx.prove(rd / "Prop_C10.v", "Prop_C10.v (14 theorems re-proved against Gen_voigt.v)", "theorem-file",
                   extra_Q=[(rd, "CijGen")])
 
     # 3. exhaustive observation of the implementation
@@ -379,6 +379,17 @@ def oracle(ctx, c_, e_):
         k, err = observe(e_, v)
         if k is None or tuple(k) != s or k.voigt != v or observe(e_, *s)[0] != k or observe(e_, s[1], s[0])[0] != k:
             ctx.failure("strain-%d" % v, "strain index %d does not map to %s" % (v, s), input=v)
+    # strain spellings: the integer ij, the pair (i, j), the string "ij" and the pair (j, i) name one strain index
+    for i in (1, 2, 3):
+        for j in (1, 2, 3):
+            want = observe(e_, i, j)[0]
+            for sp, args in (("int", (10 * i + j,)), ("str", ("%d%d" % (i, j),)), ("swapped", (j, i))):
+                got = observe(e_, *args)[0]
+                if want is None or got != want or tuple(got) != tuple(sorted((i, j))):
+                    ctx.failure("strain-spelling-%s-%d%d" % (sp, i, j),
+                                "e_%r is %r but e_(%d,%d) is %r (documented: the symmetric pair (%d,%d))"
+                                % (args, got, i, j, want, min(i, j), max(i, j)), input=list(args), expected=repr(want),
+                                observed=repr(got))
     for bad in [0, 7, -1]:
         if observe(e_, bad)[0] is not None:
             ctx.failure("strain-oor-%d" % bad, "out-of-range strain index %d accepted" % bad, input=bad)
